@@ -544,7 +544,36 @@ def rule_hashbrown(ck):
     ck.ob("bits.hashbrown_full", "remove_lowest_bit=x&(x-1)", e is not None and "Sub" in e and "1" in e, f"{e}", rl.loc())
 
 
+def rule_discr_sign(ck):
+    """both sides of the discriminant comparison must extend the tag the same way"""
+    prog = ck.prog
+    ck.rule("table.discr_sign", "variant lookup of data-carrying enums: the keys come from DW_AT_discr_value read with gimli's sdata_value(), which sign-extends the fixed-size forms LLVM uses for unsigned tags too (250 in a u8 tag is stored as data1 0xFA and read as -6), while the tag is read by its DWARF base type (u8 -> 250). The lookup must therefore also try the sign-extended tag for u8/u16/u32 tags, or the keys must be normalised by the tag's signedness")
+    rd = [f for p_, f in prog.fns.items() if re.search(r"unit::die::Die(<.*>)?::discr_value$", p_) or p_.endswith("::discr_value")]
+    sd = any(c.name.endswith("AttributeValue::<R, Offset>::sdata_value") or c.name.endswith("::sdata_value") for f in rd for g in prog.with_closures(f.path) for c in g.calls())
+    ud = any(c.name.endswith("::udata_value") for f in rd for g in prog.with_closures(f.path) for c in g.calls())
+    ck.ob("table.discr_sign", "discr_value/reader", bool(rd) and (sd or ud), f"{len(rd)} reader(s); sdata_value={sd} udata_value={ud}", rd[0].loc() if rd else "")
+    pe = [f for p_, f in prog.fns.items() if p_.endswith("ValueParser::parse_rust_enum")]
+    if not ck.ob("table.discr_sign", "parse_rust_enum/exists", len(pe) == 1, "", ""):
+        return
+    f = pe[0]
+    fs = prog.with_closures(f.path)
+    for g in fs:
+        ck.saw(g)
+    gets = [c for g in fs for c in g.calls() if re.search(r"HashMap::<K, V, S(, A)?>::get$", c.name)]
+    casts = set()
+    for g in fs:
+        for i, j, pl, rv, sp in g.assigns():
+            if rv["r"] == "cast":
+                src = op_local(rv["op"])
+                st = g.raw["locals"][src][0] if src is not None else ""
+                casts.add((st, rv.get("ty")))
+    need = {("u8", "i8"), ("u16", "i16"), ("u32", "i32")}
+    alias = need <= casts and len(gets) >= 3
+    ck.ob("table.discr_sign", "parse_rust_enum/lookup-agrees-with-sign-extended-keys", (sd and alias) or (ud and not sd and False) or (not sd and not ud), f"{len(gets)} lookups, sign-extending casts present: {sorted(need & casts)}" + ("" if alias else ": an unsigned tag with the top bit set never matches its sign-extended key, the variant is not shown"), f.loc(), what="a data-carrying enum whose unsigned tag value has the top bit set (>= 128 in a u8 tag) is shown without its variant")
+
+
 def run(ck):
+    rule_discr_sign(ck)
     rule_hashbrown(ck)
     rule_vecdeque(ck)
     rule_scalar_table(ck)
